@@ -96,14 +96,18 @@ def one_dir(ctx, res, rng, d):
                     rids.setdefault(v, []).append(r["path"])
         lctx = {"pages": [p[:-3] for p in files] + ["nosuch", "sub/new"], "zids": sorted(zid_page), "own_zids": sorted(zid_page)[:5],
                 "gids": ["g1", "g2", "G3", "nogid"], "rids": ["r1", "r2", "norid"]}
-        for is_zoq in (False, True):
+        # the page holding the line lives at the root of the notes directory or in a sub-directory that also holds a page
+        # named like a link target missing at the root (`[[nosuch]]` must still mean <notes dir>/nosuch.zo)
+        (zdir / "sub").mkdir(exist_ok=True)
+        (zdir / "sub" / "nosuch.zo").write_text("# A neighbour page\n")
+        for is_zoq, loc in ((False, ""), (True, ""), (False, "sub/"), (True, "sub/")):
             ext = ".zoq" if is_zoq else ".zo"
             lines, exps = ["# Scratch page" if not is_zoq else "# scratch (not a query)", ""], [None, None]
-            for _ in range(ctx.scale(40, 60)):
+            for _ in range(ctx.scale(40, 60) if loc == "" else 12):
                 line, exp, primary = gen_line(rng, lctx)
                 lines.append(line)
                 exps.append((exp, primary))
-            page = f"scratch{ext}"
+            page = f"{loc}scratch{ext}"
             (zdir / page).write_text("\n".join(lines) + "\n")
 
             def run(line_no, option=None, path=page):
@@ -140,8 +144,8 @@ def one_dir(ctx, res, rng, d):
                     rck, outk = run(ln, k)
                     tk = want[k - 1] if k > 0 else want[-1]
                     solo = "- solo " + (tk if not re.fullmatch(r"\d{6}#\w{2,3}", tk) else tk)
-                    (zdir / f"solo{ext}").write_text("# solo\n\n" + solo + "\n")
-                    rcs, outs = run(3, None, f"solo{ext}")
+                    (zdir / f"{loc}solo{ext}").write_text("# solo\n\n" + solo + "\n")
+                    rcs, outs = run(3, None, f"{loc}solo{ext}")
                     res.evaluations += 1
                     if (rck, outk) != (rcs, outs):
                         res.failures.append(C.Failure(f"option {k} of {line!r} gives {outk} (rc {rck}) but a line with only {tk!r} gives {outs} (rc {rcs})", {**case, "kind": "option", "k": k}))
@@ -201,7 +205,7 @@ def classify(f: C.Failure, entry: dict) -> bool:
 
 
 RULE = (
-    "scratch pages (.zo and .zoq) on indexed directories with 40 generated lines each: any kind prefix, priority, modify date, primary ZID, 0-5 targets "
+    "scratch pages (.zo and .zoq, at the root and in a sub-directory holding a same-named neighbour of a missing link target) on indexed directories with 40 / 12 generated lines each: any kind prefix, priority, modify date, primary ZID, 0-5 targets "
     "of every kind (page links with / without anchor, local, global, reference links, bare and bracketed ZIDs) between plain words, with surrounding "
     "punctuation; `zorg action open PATH LINE [IDX]` in-process: protocol lines only, PROMPT lists exactly the targets in order, option k / -1 equals the "
     "answer for a line holding only that target, out-of-range options, resolution of single targets against the raw index; all also vs the Lean Action model"
